@@ -41,6 +41,7 @@ class SimDisk:
         self.frozen = False
         self.fired: dict[str, int] = {}
         self.mutating_ops = 0
+        self.next_rid = 0  # deterministic id of each raw file object
 
     # -- helpers -----------------------------------------------------------
     def _fire(self, name: str) -> None:
@@ -123,6 +124,8 @@ class SimRawIO(io.RawIOBase):
         self._w = any(c in mode for c in "wax+")
         self._pos = 0
         self.name = path
+        self.rid = disk.next_rid
+        disk.next_rid += 1
         r = disk.op("open", path)
         if isinstance(r, tuple):
             raise SimCrash
@@ -142,7 +145,7 @@ class SimRawIO(io.RawIOBase):
         elif "a" in mode:
             disk.files.setdefault(path, bytearray())
             self._pos = len(disk.files[path])
-        disk._log("open", path, mode)
+        disk._log("open", path, mode, self.rid)
 
     def readable(self):
         return self._r
@@ -193,7 +196,7 @@ class SimRawIO(io.RawIOBase):
             if n < len(data):
                 self.disk._fire("short_write")
         self._apply(data[:n])
-        self.disk._log("write", self.path, n, len(data))
+        self.disk._log("write", self.path, n, len(data), self.rid)
         return n
 
     def _apply(self, data: bytes) -> None:
@@ -210,7 +213,7 @@ class SimRawIO(io.RawIOBase):
             if isinstance(r, tuple):
                 raise SimCrash
             if r != "frozen":
-                self.disk._log("close", self.path)
+                self.disk._log("close", self.path, self.rid)
         finally:
             super().close()
 
